@@ -753,6 +753,7 @@ def unused_declaration(start):
 
 NS_CRITICAL = [("del", ""), ("del", P), ("del", Q), ("delr", 0), ("delr", 1), ("set", "", U1), ("addo", Q, U1),
                ("set", "r", U3), ("addo", P, U2)]
+NS_CRITICAL_QUICK = [("del", ""), ("del", P), ("del", Q), ("delr", 0), ("set", "", U1), ("addo", P, U2)]
 
 
 def gen_cases(ctx, thorough):
@@ -764,11 +765,11 @@ def gen_cases(ctx, thorough):
         cases.append((s, (), "all"))          # every preference row on every start sheet
         for o in full:
             cases.append((s, (o,)))
-    for s in (starts if thorough else starts[::3]):
+    for s in (starts if thorough else starts[::4]):
         for o in sel_alphabet(s):
             cases.append((s, (o,)))
     n1 = len(cases)
-    sub = starts[::2] if thorough else [s for i, s in enumerate(starts) if i % 11 == 0]
+    sub = starts[::2] if thorough else [s for i, s in enumerate(starts) if i % 16 == 0]
     for s in sub:
         for o1, o2 in itertools.product(small, repeat=2):
             cases.append((s, (o1, o2)))
@@ -776,10 +777,10 @@ def gen_cases(ctx, thorough):
     # must follow the CURRENT selectors)
     # quick: every sheet with a declared but unused URI (there the in-use status can flip) + every 25th other
     flip = [s for s in starts if unused_declaration(s)]
-    for n, s in enumerate(starts if thorough else
+    for n, s in enumerate(flip + [s for s in starts[::2] if s not in flip] if thorough else
                           flip[::3] + [s for i, s in enumerate(starts) if i % 40 == 7 and s not in flip]):
         sel = sel_alphabet(s)
-        for o1, o2 in itertools.product(sel, NS_CRITICAL):
+        for o1, o2 in itertools.product(sel, NS_CRITICAL if thorough else NS_CRITICAL_QUICK):
             cases.append((s, (o1, o2)))
             cases.append((s, (o2, o1)))
         if thorough and n % 3 == 0:
